@@ -293,3 +293,71 @@ def features(doc):
             walk(kid)
     walk(doc['root'])
     return sorted(tags)
+
+
+# ---------------------------------------------------------------------------------------------
+# shrinking
+
+def shrink(doc, still_fails, budget=400):
+    """Greedy structural minimisation of a document for which `still_fails(doc)` holds."""
+    import copy
+    spent = [0]
+
+    def attempt(candidate):
+        spent[0] += 1
+        if spent[0] > budget:
+            return False
+        try:
+            return still_fails(candidate)
+        except Exception:
+            return False
+
+    def boxes_of(d):
+        out = []
+
+        def walk(b, parent, i):
+            out.append((b, parent, i))
+            for j, k in enumerate(b['kids']):
+                walk(k, b, j)
+        walk(d['root'], None, 0)
+        return out
+
+    changed = True
+    while changed and spent[0] <= budget:
+        changed = False
+        # remove children
+        for idx in range(len(boxes_of(doc))):
+            cand = copy.deepcopy(doc)
+            entries = boxes_of(cand)
+            if idx >= len(entries):
+                break
+            box, parent, i = entries[idx]
+            if parent is None or parent is cand['root']:
+                continue
+            del parent['kids'][i]
+            if attempt(cand):
+                doc, changed = cand, True
+                break
+        if changed:
+            continue
+        # simplify fields
+        default = default_style()
+        for idx in range(len(boxes_of(doc))):
+            box = boxes_of(doc)[idx][0]
+            for key, dv in default.items():
+                if key == 'isRoot' or box['st'][key] == dv:
+                    continue
+                cand = copy.deepcopy(doc)
+                boxes_of(cand)[idx][0]['st'][key] = dv
+                if attempt(cand):
+                    doc, changed = cand, True
+                    break
+            if changed:
+                break
+            if box['kind'] == 'para' and box['n'] > 1:
+                cand = copy.deepcopy(doc)
+                boxes_of(cand)[idx][0]['n'] = box['n'] - 1
+                if attempt(cand):
+                    doc, changed = cand, True
+                    break
+    return doc
